@@ -17,7 +17,8 @@ LEVEL_NOTE = ("Trusted: Coq kernel for the two theorems; the comparison harness.
 TECHNIQUE = "Coq theorems (sort-based serialisation is order independent; second call sees the same sources) + byte comparison across hash seeds, histories, libraries"
 RULE = ("seeded generated fonts (kerning groups, marks, anchors, Latin/Cyrillic/Greek/Arabic/Hebrew code points, lib filters) and "
         "2-master families, plus fixtures; each compiled in k fresh interpreters with PYTHONHASHSEED in {0,1,2,3,17,...}; within "
-        "one interpreter through 6-8 histories per source. Non-trivial = a (source, history) cell compared across >= 2 seeds.")
+        "one interpreter through 6-8 histories per source. Non-trivial = a (source, history) cell compared across >= 2 seeds."
+        " Every font carries a contextual anchor (identifier + public.objectLibs), a random mark-class conflict graph and a tie between two vertical origins; VF-info documents compiled twice; inplace cells for fixtures.")
 ASSUMPTIONS = ["SOURCE_DATE_EPOCH=0 pins head.created/modified"]
 F1B_SIG = "MATH-second-compile-loses-MinConnectorOverlap"
 F4_SIG = "colour-layers-second-compile"
